@@ -53,8 +53,7 @@ Section Sound.
 Variable af : nat -> Rvec -> Rvec.
 Variable ad : nat -> Rvec -> Rvec -> Rvec.
 Variable adm arn : nat -> space.
-Variable rv : bool.
-Notation P := (PR af ad adm arn rv).
+Notation P := (PR af ad adm arn).
 
 (* what is assumed of user-defined leaves: their own derivative is right *)
 Hypothesis Habs : forall k x, length x = sdim (adm k) ->
@@ -170,7 +169,7 @@ Proof.
   - apply Z.eqb_eq in Hl. subst p.
     apply (blin_ext _ _ (fun d => d)); [|apply blin_id].
     intros d. cbn [leval]. rewrite (map_ext _ (fun a => a)) by (intros a; apply zpow_1). symmetry; apply map_id.
-  - destruct (ufunc_linear_scale af ad adm arn rv f Hl) as [c Hc].
+  - destruct (ufunc_linear_scale af ad adm arn f Hl) as [c Hc].
     apply (blin_ext _ _ (vscal c)); [|apply blin_scale].
     intros d. cbn [leval]. unfold vscal. apply map_ext. intros a. rewrite Hc. reflexivity.
   - apply Nat.eqb_eq in Hw. cbn [PR adom aran ader]. apply Habs. exact Hw.
@@ -265,7 +264,7 @@ Proof.
       assert (Hlen : length (map (ueval P e) x) = n) by (rewrite map_length; exact Hx).
       ssplit; auto.
       * intros g d Hc. apply (curve_map _ (usem P f) (ueval P e)); [exact Hc|].
-        intros i Hi. apply (ufunc_deriv_table_sound af ad adm arn rv f e He). apply Hreg. lia.
+        intros i Hi. apply (ufunc_deriv_table_sound af ad adm arn f e He). apply Hreg. lia.
       * apply blin_mulv; exact Hlen.
       * rewrite andb_true_r. apply Nat.eqb_eq. exact Hlen.
     + apply Hself; [exact Hok|reflexivity].
@@ -325,7 +324,7 @@ Proof.
       assert (Hlen : length (pwdiv n (length w) x (pwnorm2 P n w x)) = (length w * n)%nat)
         by (apply pwdiv_len; assumption).
       ssplit; auto.
-      * intros g d Hc. apply (pwnorm2_curve af ad adm arn rv n w g x d Hc Hreg).
+      * intros g d Hc. apply (pwnorm2_curve af ad adm arn n w g x d Hc Hreg).
       * apply pwinner_blin. exact Hlen.
       * rewrite Hlen, Nat.eqb_refl, Hk. reflexivity.
   - (* LCMod *)
@@ -488,17 +487,6 @@ Proof.
   cbn [snd] in Ha. rewrite (Ha W1); [rewrite W5; reflexivity|].
   rewrite W4. cbn [sdim]. apply proj_len; assumption.
 Qed.
-
-Lemma mk_rscal_eval s D d : eval P (mk_rscal s D) d = eval P D (vscal s d).
-Proof. destruct D; cbn [mk_rscal eval]; try reflexivity. rewrite vscal_vscal. f_equal. f_equal. apply Rmult_comm. Qed.
-Lemma mk_rscal_lin s D : is_lin (mk_rscal s D) = is_lin D.
-Proof. destruct D; reflexivity. Qed.
-Lemma mk_rscal_wt s D : wt P (mk_rscal s D) = wt P D.
-Proof. destruct D; reflexivity. Qed.
-Lemma mk_rscal_dom s D : dom P (mk_rscal s D) = dom P D.
-Proof. destruct D; reflexivity. Qed.
-Lemma mk_rscal_ran s D : ran P (mk_rscal s D) = ran P D.
-Proof. destruct D; reflexivity. Qed.
 
 Lemma eval_len e : len_ok e.
 Proof.
@@ -903,22 +891,12 @@ Proof.
     { apply (hdiff_comp _ (sdim (dom P a)) _ (eval P a) (vscal s) x
                (eval P (derivative P a (vscal s x))) (vscal s)); [|exact A1].
       apply (blin_hdiff _ _ _ _ (blin_scale _ s) Hx). }
-    destruct (rsv P) eqn:Erv.
-    + (* repaired variant: OperatorRightScalarMult(op'(s x), s) *)
-      unfold sound. rewrite mk_rscal_lin, mk_rscal_wt, mk_rscal_dom, mk_rscal_ran. ssplit; auto.
-      * apply (hdiff_ext_len _ _ _ _ (fun d => eval P (derivative P a (vscal s x)) (vscal s d))); [|exact Hcomp].
-        intros d _. symmetry; apply mk_rscal_eval.
-      * apply (blin_ext _ _ (fun d => eval P (derivative P a (vscal s x)) (vscal s d))).
-        { intros d. symmetry; apply mk_rscal_eval. }
-        apply (blin_comp _ (sdim (dom P a)) _ (eval P (derivative P a (vscal s x))) (vscal s));
-          [apply blin_scale|exact A2].
-    + (* current variant: s * op'(s x) *)
-      unfold sound. rewrite mk_lscal_lin, mk_lscal_wt, mk_lscal_dom, mk_lscal_ran. ssplit; auto.
-      * apply (hdiff_ext_len _ _ _ _ (fun d => eval P (derivative P a (vscal s x)) (vscal s d))); [|exact Hcomp].
-        intros d Hd. rewrite mk_lscal_eval. destruct A2 as (_ & _ & Hs & _). apply Hs. exact Hd.
-      * apply (blin_ext _ _ (fun d => vscal s (eval P (derivative P a (vscal s x)) d))).
-        { intros d. symmetry; apply mk_lscal_eval. }
-        apply (blin_comp _ (sdim (ran P a)) _ (vscal s) (eval P (derivative P a (vscal s x)))); [exact A2|apply blin_scale].
+    unfold sound. rewrite mk_lscal_lin, mk_lscal_wt, mk_lscal_dom, mk_lscal_ran. ssplit; auto.
+    + apply (hdiff_ext_len _ _ _ _ (fun d => eval P (derivative P a (vscal s x)) (vscal s d))); [|exact Hcomp].
+      intros d Hd. rewrite mk_lscal_eval. destruct A2 as (_ & _ & Hs & _). apply Hs. exact Hd.
+    + apply (blin_ext _ _ (fun d => vscal s (eval P (derivative P a (vscal s x)) d))).
+      { intros d. symmetry; apply mk_lscal_eval. }
+      apply (blin_comp _ (sdim (ran P a)) _ (vscal s) (eval P (derivative P a (vscal s x)))); [exact A2|apply blin_scale].
   - (* OLVec *)
     cbn [derivative deriv_ok regular] in *.
     destruct (is_lin a) eqn:La.
@@ -1053,14 +1031,13 @@ Section Consequences.
 Variable af : nat -> Rvec -> Rvec.
 Variable ad : nat -> Rvec -> Rvec -> Rvec.
 Variable adm arn : nat -> space.
-Variable rv : bool.
-Notation P := (PR af ad adm arn rv).
+Notation P := (PR af ad adm arn).
 Hypothesis Habs : forall k x, length x = sdim (adm k) ->
   hdiff (sdim (adm k)) (sdim (arn k)) (af k) x (ad k x) /\
   blin (sdim (adm k)) (sdim (arn k)) (ad k x).
 
 Lemma deriv_central (e : oexprR) x :
-  wt P e = true -> length x = sdim (dom P e) -> deriv_ok P e x = true -> regular af ad adm arn rv e x ->
+  wt P e = true -> length x = sdim (dom P e) -> deriv_ok P e x = true -> regular af ad adm arn e x ->
   forall d, length d = sdim (dom P e) -> forall i, (i < sdim (ran P e))%nat ->
   forall eps, 0 < eps -> exists delta, 0 < delta /\
     forall h, h <> 0 -> Rabs h < delta ->
@@ -1068,26 +1045,26 @@ Lemma deriv_central (e : oexprR) x :
             - nth i (eval P (derivative P e x) d) 0) < eps.
 Proof.
   intros Hw Hx Hok Hreg.
-  destruct (deriv_sound af ad adm arn rv Habs e x Hw Hx Hok Hreg) as (H1 & _).
+  destruct (deriv_sound af ad adm arn Habs e x Hw Hx Hok Hreg) as (H1 & _).
   apply (hdiff_central_difference _ _ _ _ _ H1 Hx).
 Qed.
 
 (* linear operators are their own derivative: whatever object derivative returns acts like e *)
 Lemma lin_deriv_self (e : oexprR) x :
   is_lin e = true -> wt P e = true -> length x = sdim (dom P e) ->
-  deriv_ok P e x = true -> regular af ad adm arn rv e x ->
+  deriv_ok P e x = true -> regular af ad adm arn e x ->
   forall d, length d = sdim (dom P e) -> eval P (derivative P e x) d = eval P e d.
 Proof.
   intros Hl Hw Hx Hok Hreg d Hd.
-  destruct (deriv_sound af ad adm arn rv Habs e x Hw Hx Hok Hreg) as (H1 & _).
-  destruct (lin_sound af ad adm arn rv Habs e x Hl Hw Hx) as (H2 & _).
+  destruct (deriv_sound af ad adm arn Habs e x Hw Hx Hok Hreg) as (H1 & _).
+  destruct (lin_sound af ad adm arn Habs e x Hl Hw Hx) as (H2 & _).
   apply (hdiff_unique _ _ _ _ _ _ H1 H2 Hx d Hd).
 Qed.
 
 (* affine operators have the derivative of their linear part *)
 Lemma affine_deriv (a : oexprR) v x :
   is_lin a = true -> wt P (OVecSum a v) = true -> length x = sdim (dom P a) ->
-  deriv_ok P a x = true -> regular af ad adm arn rv a x ->
+  deriv_ok P a x = true -> regular af ad adm arn a x ->
   forall d, length d = sdim (dom P a) -> eval P (derivative P (OVecSum a v) x) d = eval P a d.
 Proof.
   intros Hl Hw Hx Hok Hreg d Hd. cbn [derivative].
@@ -1097,11 +1074,11 @@ Qed.
 End Consequences.
 
 (* the same with the premise on user-defined leaves reduced to plain linearity *)
-Lemma deriv_sound_linmap af ad adm arn rv :
+Lemma deriv_sound_linmap af ad adm arn :
   (forall k x, length x = sdim (adm k) ->
      hdiff (sdim (adm k)) (sdim (arn k)) (af k) x (ad k x) /\
      linmap (sdim (adm k)) (sdim (arn k)) (ad k x)) ->
-  forall e, dsound af ad adm arn rv e.
+  forall e, dsound af ad adm arn e.
 Proof.
   intros H e. apply deriv_sound. intros k x Hx. destruct (H k x Hx) as [H1 H2].
   split; [exact H1|apply linmap_blin; exact H2].
@@ -1148,9 +1125,9 @@ Definition ex_tree : @oexpr R :=
                     (OComp (ODiagonal [OLeaf (LAbs 2); OLeaf (LScale (SV 1) 2)])
                            (OBroadcast [OLeaf (LUf Usquare 2); OLeaf (LMat 2 [[1; 1]])]))))).
 Lemma ex_premises :
-  let P := PR ex_af ex_ad ex_dm ex_dm false in
+  let P := PR ex_af ex_ad ex_dm ex_dm in
   wt P ex_tree = true /\ is_lin ex_tree = false /\ length [1; 2] = sdim (dom P ex_tree) /\
-  deriv_ok P ex_tree [1; 2] = true /\ regular ex_af ex_ad ex_dm ex_dm false ex_tree [1; 2].
+  deriv_ok P ex_tree [1; 2] = true /\ regular ex_af ex_ad ex_dm ex_dm ex_tree [1; 2].
 Proof.
   cbn. repeat split; try reflexivity.
   - intros i Hi. destruct i as [|[|i]]; [lra|lra|lia].
